@@ -139,7 +139,39 @@ func init() {
 	v("And3", func(e *Engine, fn *ssa.Function, a []Value) Value {
 		return e.ts.And(e.ts.And(a[0].(*Term), a[1].(*Term)), a[2].(*Term))
 	})
-	v("Implies", func(e *Engine, fn *ssa.Function, a []Value) Value { return e.ts.Or(e.ts.Not(a[0].(*Term)), a[1].(*Term)) })
+	v("Implies", func(e *Engine, fn *ssa.Function, a []Value) Value {
+		return e.ts.Or(e.ts.Not(a[0].(*Term)), a[1].(*Term))
+	})
+	v("MayDiffer", func(e *Engine, fn *ssa.Function, a []Value) Value {
+		// discovery aid (never used by a registered check): which bits of x can be non-zero here?
+		x := a[1].(*Term)
+		mask := uint64(0)
+		if x.IsConst() {
+			mask = x.val
+		} else {
+			e.flushAsserts()
+			for j := 0; j < x.w; j++ {
+				bit := e.ts.Eq(e.ts.Extract(x, j, j), e.ts.Const(1, 1))
+				if e.check(bit) != "unsat" {
+					mask |= 1 << uint(j)
+				}
+			}
+		}
+		if mask != 0 {
+			e.stats.Stubs[fmt.Sprintf("maydiffer|%s|%02x", a[0].(string), mask)]++
+		}
+		return nil
+	})
+	v("IteU8", func(e *Engine, fn *ssa.Function, a []Value) Value {
+		return e.ts.Ite(a[0].(*Term), a[1].(*Term), a[2].(*Term))
+	})
+	v("KnownEnd", func(e *Engine, fn *ssa.Function, a []Value) Value {
+		e.flushAsserts()
+		if n := len(e.p.known); n > 0 {
+			e.p.known = e.p.known[:n-1]
+		}
+		return nil
+	})
 	v("Symbolic", func(e *Engine, fn *ssa.Function, a []Value) Value { return e.ts.True })
 	v("Steps", func(e *Engine, fn *ssa.Function, a []Value) Value { return e.ts.Const(64, uint64(e.p.steps)) })
 
@@ -788,6 +820,9 @@ func (e *Engine) formatOperand(spec string, verb byte, op IfaceV) fmtPiece {
 			return fmtPiece{sym: x.b, opaque: x.opaque}
 		}
 	case *Term:
+		if !e.cfg.PreciseFmt {
+			return fmtPiece{opaque: true}
+		}
 		if x.w > 0 && (verb == 'x' || verb == 'X') {
 			width, zero, ok := parseHexSpec(spec)
 			if ok {
